@@ -205,6 +205,8 @@ def run_plan(plan, seed, choices=None):
     cconn = M['cconn']
     proto = __import__('cassandra.protocol', fromlist=['x'])
     set_knob(w.conn_class, 'in_buffer_size', plan['in_buffer_size'])
+    # a reader that loops over its buffer without ever returning to the reactor can never end (nothing else runs meanwhile)
+    sim.watch_spin([cconn.Connection.process_io_buffer], cap=300000)
     if plan['compression']:
         register_standin_lz4()
     peer = C06Peer(w, plan)
